@@ -361,3 +361,91 @@ Proof.
       destruct (dbp_go bits (S f) (S b) s1) as [[v2 s2']| | |]; cbn [bind]; try reflexivity.
       rewrite app_assoc. reflexivity.
 Qed.
+
+(* ---------- (f) read = optional header value + loop; no padding when enough values remain ---------- *)
+Lemma dbp_read_nofirst bits n s :
+  0 < d_per s -> d_first s = false -> N.of_nat n <= d_rem s ->
+  dbp_read bits n s = dbp_go bits n n s.
+Proof.
+  intros Hper Hfirst Hrem. destruct n as [|k].
+  - rewrite dbp_go_0. reflexivity.
+  - unfold dbp_read. rewrite Hfirst.
+    destruct (dbp_go bits (S k) (S k) s) as [[vs s']| | |] eqn:E; cbn [bind]; try reflexivity.
+    apply dbp_go_shape in E; [|exact Hper|exact Hrem|clear; lia].
+    destruct E as [G1 _]. rewrite G1. rewrite Nat.sub_diag. cbn [repeat]. rewrite app_nil_r. reflexivity.
+Qed.
+
+Lemma dbp_read_first bits k s :
+  0 < d_per s -> d_first s = true -> N.of_nat k <= d_rem s ->
+  dbp_read bits (S k) s = ('(vs, s') <- dbp_go bits k k (dbp_clear_first s) ;; Ok (d_prev s :: vs, s')).
+Proof.
+  intros Hper Hfirst Hrem. unfold dbp_read. rewrite Hfirst.
+  destruct (dbp_go bits k k (dbp_clear_first s)) as [[vs s']| | |] eqn:E; cbn [bind]; try reflexivity.
+  apply dbp_go_shape in E; [|exact Hper|exact Hrem|clear; lia].
+  destruct E as [G1 _]. rewrite G1. rewrite Nat.sub_diag. cbn [repeat]. rewrite app_nil_r. reflexivity.
+Qed.
+
+(* a successful read keeps values_per_mini_block and consumes exactly n available values *)
+Lemma dbp_read_ok bits n s vs s' :
+  0 < d_per s -> N.of_nat n <= dbp_avail s -> dbp_read bits n s = Ok (vs, s') ->
+  length vs = n /\ d_per s' = d_per s /\ dbp_avail s' = dbp_avail s - N.of_nat n.
+Proof.
+  intros Hper Hav H. destruct n as [|k].
+  - cbn [dbp_read] in H. injection H as Hv Hs. subst vs s'.
+    split; [reflexivity|]. split; [reflexivity|clear; lia].
+  - unfold dbp_avail in *. destruct (d_first s) eqn:Hfirst.
+    + rewrite dbp_read_first in H; [|exact Hper|exact Hfirst|clear - Hav; lia].
+      apply bind_ok in H. destruct H as [[v1 s1] [E H]]. injection H as Hv Hs. subst vs s1.
+      apply dbp_go_shape in E; [|exact Hper|cbn [dbp_clear_first d_rem]; clear - Hav; lia|clear; lia].
+      cbn [dbp_clear_first d_rem d_per d_first] in E. destruct E as [G1 [G2 [G3 G4]]].
+      rewrite G4, G2. cbn [length]. rewrite G1.
+      split; [reflexivity|]. split; [exact G3|clear - Hav; lia].
+    + rewrite dbp_read_nofirst in H; [|exact Hper|exact Hfirst|clear - Hav; lia].
+      apply dbp_go_shape in H; [|exact Hper|clear - Hav; lia|clear; lia].
+      destruct H as [G1 [G2 [G3 G4]]]. rewrite G4, G2, Hfirst.
+      split; [exact G1|]. split; [exact G3|clear; lia].
+Qed.
+
+Theorem dbp_read_split : forall bits n1 n2 s,
+  0 < d_per s -> N.of_nat (n1 + n2) <= dbp_avail s ->
+  dbp_read bits (n1 + n2) s =
+  ('(v1, s1) <- dbp_read bits n1 s ;; '(v2, s2) <- dbp_read bits n2 s1 ;; Ok (v1 ++ v2, s2)).
+Proof.
+  intros bits n1 n2 s Hper Hav.
+  destruct n1 as [|k1].
+  { cbn [Nat.add dbp_read bind].
+    destruct (dbp_read bits n2 s) as [[v2 s2]| | |]; reflexivity. }
+  unfold dbp_avail in Hav. destruct (d_first s) eqn:Hfirst.
+  - (* the header value is still pending *)
+    change (S k1 + n2)%nat with (S (k1 + n2)).
+    rewrite (dbp_read_first bits (k1 + n2) s Hper Hfirst) by (clear - Hav; lia).
+    rewrite (dbp_read_first bits k1 s Hper Hfirst) by (clear - Hav; lia).
+    assert (Hperc : 0 < d_per (dbp_clear_first s)) by exact Hper.
+    assert (Hremc : N.of_nat (k1 + n2) <= d_rem (dbp_clear_first s))
+      by (cbn [dbp_clear_first d_rem]; clear - Hav; lia).
+    rewrite (dbp_go_split bits (k1 + n2) k1 n2 _ Hperc Hremc) by (clear; lia).
+    rewrite (dbp_go_fuel bits (k1 + n2) k1 k1 _ Hperc) by (clear; lia).
+    rewrite !bind_assoc.
+    destruct (dbp_go bits k1 k1 (dbp_clear_first s)) as [[v1 s1]| | |] eqn:E1; cbn [bind]; try reflexivity.
+    apply dbp_go_shape in E1; [|exact Hperc|clear - Hremc; lia|clear; lia].
+    destruct E1 as [G1 [G2 [G3 G4]]].
+    cbn [dbp_clear_first d_rem d_per d_first] in G2, G3, G4.
+    assert (Hper1 : 0 < d_per s1) by (rewrite G3; exact Hper).
+    rewrite (dbp_read_nofirst bits n2 s1 Hper1 G4) by (rewrite G2; clear - Hav; lia).
+    rewrite (dbp_go_fuel bits (k1 + n2) n2 n2 s1 Hper1) by (clear; lia).
+    rewrite !bind_assoc.
+    destruct (dbp_go bits n2 n2 s1) as [[v2 s2]| | |]; cbn [bind]; reflexivity.
+  - (* plain continuation *)
+    assert (Hrem : N.of_nat (S k1 + n2) <= d_rem s) by (clear - Hav; lia).
+    rewrite (dbp_read_nofirst bits (S k1 + n2) s Hper Hfirst Hrem).
+    rewrite (dbp_read_nofirst bits (S k1) s Hper Hfirst) by (clear - Hrem; lia).
+    rewrite (dbp_go_split bits (S k1 + n2) (S k1) n2 s Hper Hrem) by (clear; lia).
+    rewrite (dbp_go_fuel bits (S k1 + n2) (S k1) (S k1) s Hper) by (clear; lia).
+    destruct (dbp_go bits (S k1) (S k1) s) as [[v1 s1]| | |] eqn:E1; cbn [bind]; try reflexivity.
+    apply dbp_go_shape in E1; [|exact Hper|clear - Hrem; lia|clear; lia].
+    destruct E1 as [G1 [G2 [G3 G4]]].
+    assert (Hper1 : 0 < d_per s1) by (rewrite G3; exact Hper).
+    rewrite (dbp_read_nofirst bits n2 s1 Hper1) ; [|rewrite G4; exact Hfirst|rewrite G2; clear - Hrem; lia].
+    rewrite (dbp_go_fuel bits (S k1 + n2) n2 n2 s1 Hper1) by (clear; lia).
+    reflexivity.
+Qed.
